@@ -265,6 +265,129 @@ extra = set(funcs) - set(CONV) - {"units_convert_particle", "hash_to_unit", "che
 if extra: die("functions not understood: %s" % sorted(extra))
 
 
+# ------------------------------------------------------------------ simulation.py: units setter / getter / convert_particle_units
+SIMPATH = os.path.join(REPO, "rebound", "simulation.py")
+ssrc = open(SIMPATH).read()
+try:
+    stree = ast.parse(ssrc)
+except SyntaxError as e:
+    die("simulation.py does not parse: %r" % (e,))
+simcls = [n for n in stree.body if isinstance(n, ast.ClassDef) and n.name == "Simulation"]
+if len(simcls) != 1: die("class Simulation not found in simulation.py")
+meth = {}
+for n in simcls[0].body:
+    if isinstance(n, ast.FunctionDef) and n.name in ("units", "update_units", "convert_particle_units"):
+        decs = [ast.dump(d) for d in n.decorator_list]
+        kind = n.name
+        if n.name == "units":
+            if decs == ["Name(id='property', ctx=Load())"]: kind = "units_get"
+            elif decs == ["Attribute(value=Name(id='units', ctx=Load()), attr='setter', ctx=Load())"]: kind = "units_set"
+            else: die("Simulation.units: decorator not understood")
+        if kind in meth: die("Simulation.%s defined twice" % kind)
+        meth[kind] = n
+for k in ("units_get", "units_set", "update_units", "convert_particle_units"):
+    if k not in meth: die("Simulation.%s missing" % k)
+
+
+def nodoc(body):
+    return [st for st in body if not (isinstance(st, ast.Expr) and isinstance(st.value, ast.Constant) and isinstance(st.value.value, str))]
+
+
+def self_field(n):
+    if isinstance(n, ast.Attribute) and isinstance(n.value, ast.Name) and n.value.id == "self" and n.attr.startswith("python_unit_"):
+        return n.attr
+    return None
+
+
+def h2u_field(n):
+    """hash_to_unit(self.python_unit_X) -> 'python_unit_X'"""
+    if isinstance(n, ast.Call) and isinstance(n.func, ast.Name) and n.func.id == "hash_to_unit" and len(n.args) == 1 and not n.keywords:
+        return self_field(n.args[0])
+    return None
+
+
+# update_units(self, newunits): self.python_unit_X = reb_hash(newunits[k]) ...; self.G = convert_G(newunits)
+uu = meth["update_units"]
+if [a.arg for a in uu.args.args] != ["self", "newunits"]: die("update_units: signature")
+setter_fields = []
+sets_G = False
+for st in nodoc(uu.body):
+    if isinstance(st, ast.Assign) and len(st.targets) == 1:
+        t = st.targets[0]
+        f = self_field(t)
+        if f:
+            want = ("Call(func=Attribute(value=Name(id='clibrebound', ctx=Load()), attr='reb_hash', ctx=Load()), args=[Call(func=Name(id='c_char_p', ctx=Load()), "
+                    "args=[Call(func=Attribute(value=Subscript(value=Name(id='newunits', ctx=Load()), slice=Constant(value=K), ctx=Load()), attr='encode', ctx=Load()), "
+                    "args=[Constant(value='ascii')], keywords=[])], keywords=[])], keywords=[])")
+            v = st.value
+            try:
+                k = v.args[0].args[0].func.value.slice.value
+            except Exception:
+                die("update_units: value of %s not understood" % f)
+            if not isinstance(k, int) or ast.dump(v) != want.replace("K", str(k)): die("update_units: value of %s not understood" % f)
+            if f in [x for x, _ in setter_fields]: die("update_units: %s assigned twice" % f)
+            setter_fields.append((f, k))
+            continue
+        if ast.dump(t) == "Attribute(value=Name(id='self', ctx=Load()), attr='G', ctx=Store())":
+            if ast.dump(st.value) != "Call(func=Name(id='convert_G', ctx=Load()), args=[Name(id='newunits', ctx=Load())], keywords=[])":
+                die("update_units: self.G is not convert_G(newunits)")
+            sets_G = True
+            continue
+        if ast.dump(t) == "Attribute(value=Attribute(value=Name(id='clibrebound', ctx=Load()), attr='reb_hash', ctx=Load()), attr='restype', ctx=Store())" \
+                and ast.dump(st.value) == "Name(id='c_uint32', ctx=Load())":
+            continue
+    die("update_units: statement not understood (line %d)" % st.lineno)
+if not sets_G or len(setter_fields) != 3: die("update_units: must set three python_unit_* fields and G")
+
+# getter: return {'key': hash_to_unit(self.python_unit_X), ...}
+ug = nodoc(meth["units_get"].body)
+if len(ug) != 1 or not isinstance(ug[0], ast.Return) or not isinstance(ug[0].value, ast.Dict): die("units getter: not a single return of a dict")
+getter_keys = []
+for k, v in zip(ug[0].value.keys, ug[0].value.values):
+    f = h2u_field(v)
+    if not (isinstance(k, ast.Constant) and isinstance(k.value, str) and f): die("units getter: entry not understood")
+    getter_keys.append((k.value, f))
+
+# setter: newunits = check_units(newunits); if self.N>0: raise ...; self.update_units(newunits)
+us = nodoc(meth["units_set"].body)
+us_shape = [ast.dump(x) for x in us]
+if len(us) != 3 or us_shape[0] != ("Assign(targets=[Name(id='newunits', ctx=Store())], value=Call(func=Name(id='check_units', ctx=Load()), "
+                                   "args=[Name(id='newunits', ctx=Load())], keywords=[]))") \
+        or not (isinstance(us[1], ast.If) and len(us[1].body) == 1 and isinstance(us[1].body[0], ast.Raise) and not us[1].orelse
+                and ast.dump(us[1].test) == "Compare(left=Attribute(value=Name(id='self', ctx=Load()), attr='N', ctx=Load()), ops=[Gt()], comparators=[Constant(value=0)])") \
+        or us_shape[2] != ("Expr(value=Call(func=Attribute(value=Name(id='self', ctx=Load()), attr='update_units', ctx=Load()), "
+                           "args=[Name(id='newunits', ctx=Load())], keywords=[]))"):
+    die("units setter no longer has the transcribed shape (check_units; refuse if N>0; update_units)")
+
+# convert_particle_units: guard on zero hashes; new = check_units(args); per particle units_convert_particle(p, old..., new...); update_units(new)
+cp = nodoc(meth["convert_particle_units"].body)
+if len(cp) != 4: die("convert_particle_units: shape")
+g = cp[0]
+if not (isinstance(g, ast.If) and isinstance(g.test, ast.BoolOp) and isinstance(g.test.op, ast.Or) and len(g.body) == 1 and isinstance(g.body[0], ast.Raise)):
+    die("convert_particle_units: guard")
+guard_fields = []
+for c in g.test.values:
+    if not (isinstance(c, ast.Compare) and self_field(c.left) and len(c.ops) == 1 and isinstance(c.ops[0], ast.Eq)
+            and isinstance(c.comparators[0], ast.Constant) and c.comparators[0].value == 0):
+        die("convert_particle_units: guard term")
+    guard_fields.append(self_field(c.left))
+if ast.dump(cp[1]) != ("Assign(targets=[Tuple(elts=[Name(id='new_l', ctx=Store()), Name(id='new_t', ctx=Store()), Name(id='new_m', ctx=Store())], ctx=Store())], "
+                       "value=Call(func=Name(id='check_units', ctx=Load()), args=[Name(id='args', ctx=Load())], keywords=[]))"):
+    die("convert_particle_units: new units are not check_units(args)")
+lp = cp[2]
+if not (isinstance(lp, ast.For) and ast.dump(lp.iter) == "Attribute(value=Name(id='self', ctx=Load()), attr='particles', ctx=Load())" and len(lp.body) == 1
+        and isinstance(lp.body[0], ast.Expr) and isinstance(lp.body[0].value, ast.Call) and isinstance(lp.body[0].value.func, ast.Name)
+        and lp.body[0].value.func.id == "units_convert_particle" and len(lp.body[0].value.args) == 7):
+    die("convert_particle_units: particle loop")
+ca = lp.body[0].value.args
+convert_old_fields = [h2u_field(a) for a in ca[1:4]]
+if None in convert_old_fields or [ast.dump(a) for a in ca[4:]] != ["Name(id='new_%s', ctx=Load())" % x for x in "ltm"] \
+        or ast.dump(ca[0]) != "Name(id='%s', ctx=Load())" % lp.target.id:
+    die("convert_particle_units: arguments of units_convert_particle")
+if ast.dump(cp[3]) != ("Expr(value=Call(func=Attribute(value=Name(id='self', ctx=Load()), attr='update_units', ctx=Load()), args=[Tuple(elts=[Name(id='new_l', ctx=Load()), "
+                       "Name(id='new_t', ctx=Load()), Name(id='new_m', ctx=Load())], ctx=Load())], keywords=[]))"):
+    die("convert_particle_units: final update_units((new_l, new_t, new_m))")
+
 # ------------------------------------------------------------------ emit
 def zv(v):
     return "(%d, %d, %s)" % (v.q.numerator, v.q.denominator, "true" if v.sq else "false")
@@ -285,6 +408,12 @@ out.append("(* tables searched, in this order, by hash_to_unit (first match wins
 out.append("Definition hash_lookup_order : list (list (string * uval)) := [%s]." % "; ".join(order))
 out.append("(* units_convert_particle: particle member -> conversion applied to it *)")
 out.append("Definition particle_conversion : list (string * string) := [%s]." % "; ".join('("%s", "%s")' % p for p in pconv))
+out.append("(* rebound/simulation.py: update_units stores reb_hash(newunits[k]) in field f; the units getter maps key -> hash_to_unit(field);")
+out.append("   convert_particle_units passes hash_to_unit of these fields as (old_l, old_t, old_m) and refuses when one of guard_fields is 0 *)")
+out.append("Definition setter_fields : list (string * nat) := [%s]." % "; ".join('("%s", %d%%nat)' % x for x in setter_fields))
+out.append("Definition getter_keys : list (string * string) := [%s]." % "; ".join('("%s", "%s")' % x for x in getter_keys))
+out.append("Definition convert_old_fields : list string := [%s]." % "; ".join('"%s"' % x for x in convert_old_fields))
+out.append("Definition guard_fields : list string := [%s]." % "; ".join('"%s"' % x for x in guard_fields))
 out.append("")
 out.append("(* bodies of the conversion functions; `tbl[unit]` of the source is the argument tbl_unit *)")
 out.append("Section Conv.\n  Context {T : Type} (N : Num T).")
